@@ -94,7 +94,9 @@ if prop in ("C14", "C17"):
 # 4. Miri
 if prop == "C17":
     t0 = time.time()
-    e = dict(env, CARGO_TARGET_DIR=f"{V}/target-miri", MIRIFLAGS="-Zmiri-disable-isolation -Zmiri-ignore-leaks")
+    # hooks compiled in but only the sequential path of the shim is taken (single task, no scheduler)
+    e = dict(env, CARGO_TARGET_DIR=f"{V}/target-miri", RUSTFLAGS="--cfg llguidance_verif",
+             MIRIFLAGS="-Zmiri-disable-isolation -Zmiri-ignore-leaks")
     files = [f"{V}/regress/F2_par_mask_overread.json", f"{V}/regress/M1_capi_small.json"]
     res = []
     for f in files:
